@@ -563,3 +563,16 @@ package argmapper
 //@   modifies nothing
 //@   loop 1 invariant len(r.out) >= 1 && fresh(r.out) && sliceskept([]reflect.Value) && soff(r.out) == 0
 //@   loop 2 invariant sliceskept([]reflect.Value)
+
+// ---------------------------------------------------------------- convert.go (C10)
+//@ func convertFunc$1
+//@   pure
+//@   ensures [identity] result == args
+
+//@ func convertFunc
+//@   requires forall(i, int, imp(0 <= i && i < len(target), target[i] != nil))
+//@   ensures  [identity-function-of-the-target-types] imp(result1 == nil, result0 != nil && fresh(result0) && valid(result0.fn) && kindof(rtypeof(result0.fn)) == 19 && numIn(rtypeof(result0.fn)) == len(target) && numOut(rtypeof(result0.fn)) == len(target)
+//@               && forall(i, int, imp(0 <= i && i < len(target), inType(rtypeof(result0.fn), i) == target[i] && outType(rtypeof(result0.fn), i) == target[i])) && result0.onceResult == nil && !result0.once)
+//@   ensures  [error-means-nil] imp(result1 != nil, result0 == nil)
+//@   assigns  Func, argBuilder, NamedM, NamedSubM, TypedM, TypedSubM, []*Func, []ConverterGenFunc, ValueSet, Value, valueInternal, []*Value, map[string]*Value, map[reflect.Type]*Value, map[string]string, []string, []interface{}, reflect.StructField, []reflect.StructField, []Arg, rvstore, rvfresh
+//@   modifies nothing
